@@ -641,4 +641,34 @@ theorem C17_quote_depth_tokens :
     ([1, 2, 3, 4, 8, 16, 32, 64].map fun n => (decode none ⟨[], true⟩ (quoteDoc n)).1.map (·.length)) =
       [1, 2, 3, 4, 8, 16, 32, 64].map fun n => some (n + 1) := by decide +kernel
 
+/-! ### Bracketing on the returned masks (round F, review C17-1)
+
+Full statement (not proved): `∀ sch doc, maskBracketed`-style well-bracketedness of the styles
+of `decode none sch doc` - every span start bit in a returned mask is matched by an end bit of
+the same kind before its line ends, properly nested, and the span style bits are exactly the
+open spans.  `C17_bracketing` proves this about the decoder's span stack; the missing bridge is
+"a token's `Style()` carries `XStart` iff that step pushed `X`, `XEnd` iff it popped `X`" through
+the chain of quote decoders.  Proved here: the statement itself, in the caller's vocabulary
+(`maskStep`, `maskBracketed`, `Model/StylingNest.lean`: the automaton of the harness oracle), for
+every document of length ≤ 3 over the directive alphabet and for all 340 span nests of depth
+≤ 4; by `C17_chunk_independent` the masks are the same under every schedule.  On the real code
+the same automaton runs on every generated document and schedule (oracle clause `bracketing`). -/
+
+/-- **bracketing on the returned masks, small scope** -/
+theorem C17_bracketing_masks_partial :
+    (([0, 1, 2, 3].flatMap (docsOf smallAlpha)).all maskBracketed = true) ∧
+    ((nestSeqs.map nestDoc).all maskBracketed = true) ∧
+    ((nestSeqs.map fun ks => gt :: 0x20 :: nestDoc ks).all maskBracketed = true) := by
+  refine ⟨by decide +kernel, by decide +kernel, by decide +kernel⟩
+
+/-- the automaton is not vacuous: an end bit for a span that is not the innermost one, a
+start bit that is never ended before the newline and a style bit without an open span are
+rejected; `*a _b_*` is accepted with the stacks one expects -/
+example :
+    maskStep [1] ⟨[under], SpanEmph ||| SpanEmphEnd ||| SpanStrong, 0, none⟩ = none ∧
+    maskStep [] ⟨[star, nl], SpanStrong ||| SpanStrongStart, 0, none⟩ = none ∧
+    maskStep [] ⟨[0x61], SpanEmph, 0, none⟩ = none ∧
+    maskStep [] ⟨[star], SpanStrong ||| SpanStrongStart, 0, none⟩ = some [1] ∧
+    maskBracketed [star, 0x61, 0x20, under, 0x62, under, star, nl] = true := by decide +kernel
+
 end XmppModel.Props.C17
